@@ -115,7 +115,7 @@ var gPaths = []string{"", "/", "/a", "/a/b", "/a/../b", "/./a", "//x", "/.//x", 
 	"/1/2/3/4/5/6/7", "/1/2/3/4/5/6/7/8", "/1/2/3/4/5/6/7/8/9", "/a/b/c/d/e/f/g/h/i/j/k/l/m/n/o/p", "/a/b/c/d/e/f/g/h/i/j/k/l/m/n/o/p/q",
 	"/a/b/c/../../../../x", "/a/./b/./c/./d/./e/.", "/0/1/2/3/4/5/6/7/8/9/10/11/12/13/14/15/16/17/18/19/20/21/22/23/24/25/26/27/28/29/30/31/32",
 	"/a/b/c/d/../../../../../../e", "/..//../", "/a/%2e%2e/%2e%2e/%2e%2e/b"}
-var gQueries = []string{"", "?", "a=1", "?a=1&b=2", "a=1&a=2", "a b=c+d", "%26=%3D", "a&&b", "=x", "a='", "x=#y", "é=ü", "a=%zz", "+", "a=1%2B1", " ", "a  ", "??", "?#", "\t", "a\nb", "\"<>`{}", "\x00", "\xff", "a", "a=", "=", "&", "&&", "a=b=c", "%41=%42", "a+b=c%20d", "a=%2", "%=%", "a=1&b", "x=%C3%A9", "x=%E2%82", "a%00=b", "b=2&a=1&b=1", "a=1&A=2", "k=v&k=v", "'", "a='&b", "q=a#b", "/?/", "a=1;b=2"}
+var gQueries = []string{"", "?", "a=1", "?a=1&b=2", "a=1&a=2", "a b=c+d", "%26=%3D", "a&&b", "=x", "a='", "x=#y", "é=ü", "a=%zz", "+", "a=1%2B1", " ", "a  ", "??", "?#", "\t", "a\nb", "\"<>`{}", "\x00", "\xff", "a", "a=", "=", "&", "&&", "a=b=c", "%41=%42", "a+b=c%20d", "a=%2", "%=%", "a=1&b", "x=%C3%A9", "x=%E2%82", "a%00=b", "b=2&a=1&b=1", "a=1&A=2", "k=v&k=v", "'", "a='&b", "q=a#b", "/?/", "a=1;b=2", "a=1&=&b=2", "=&=", "&=&", "=&a=1", "a=1&="}
 var gFrags = []string{"", "#", "f", "#f g", "a`b", "é", "%", "x\ty", "  ", "##", "#?", "\"<>`{}", "\x00", "\xff", "a#b", "frag", " x", "x ", "%41", "%zz", "/?:@"}
 var gUsers = []string{"", "u", "u:p", "a@b", "a:b:c", "é", "%", " ", "/?#", "%41", "\x00", "\xff", "[]\\^|`{}", "~!$&'()*+,;=", "user", "pw", ":", "@", "%zz", "a b", "u%40"}
 var gOpaque = []string{"", "x", "text/plain,hi there", "a b", "x  ", "  ", "/..", "a/b", "é", "\x00", "%zz", "x?", "x#", "a@b.c", "blank", " ", "x \t ", "%20 ", "..", "x  y"}
